@@ -1,8 +1,6 @@
 (* Props/C04.v — Update-check flow: announced states and result match what happened.
-   PARTIAL at the level of theorems: the result-alignment clause is proved below for the model's pure core; the
-   event-shape clauses (first/last events, the iff's for each state, Idle/WaitingForReboot) are decided by trace
-   equality between the model and the implementation on the event projection (Run/EvalProps.v proj_c04) — the
-   monitor proof in the style of C02/C05/C06/C07 is future work for this property. *)
+   The main theorem is C04_event_monitor_accepts_every_model_trace (below); the theorems before it characterise the
+   two pure functions (assign_results, make_app_responses) the monitor uses to say what the result must list. *)
 Require Import Verif.Model.Time Verif.Base.Bytes Verif.Model.Proto Verif.Model.Env Verif.Model.SM Verif.Proofs.SMPure.
 Open Scope Z_scope.
 
@@ -33,3 +31,64 @@ Example C04_ex_alignment :
 Proof. reflexivity. Qed.
 
 Print Assumptions C04_result_alignment.
+
+(* ---- the event-stream monitor (Model/Monitors.v step4) accepts every trace of the model ----
+   step4 reads the facts from the trace itself (outcome of the last update-check attempt, the document, the
+   installer's plan and per-app results, the policy's decisions) and dictates the events:
+     - outside a check only CheckingForUpdates may start one (schedule / protocol announcements are free);
+     - ErrorCheckingForUpdate is accepted exactly when the last attempt gave no usable response (none on the wire,
+       transport error, non-2xx, failed authentication) or an unparseable one; the server response is accepted exactly
+       when the last attempt was authenticated, 2xx and parsed, and it must be that document;
+     - a response offering nothing must be followed by NoUpdateAvailable; a refused plan by InstallingUpdate,
+       InstallationError; a deferred install by InstallationDeferredByPolicy; a denied one by nothing; an approved one by
+       InstallingUpdate before the installer is called, then (progress aside) one InstallerError per failed app followed by
+       InstallationError iff some app failed, else the reboot-needed question;
+     - then, and only then, the schedule, the protocol state and exactly one result: the request error, the parser
+       error, the plan error, or the response's apps in order with cohort, day number and the action each received
+       (assign_results / make_app_responses, characterised above); these two announcements are what the policy is shown
+       at its next next-time question unless a request intervenes (the "final" schedule and protocol state);
+     - after the result WaitingForReboot comes iff the policy said a reboot is needed, and Idle closes the check (after
+       the reboot, when one was pending).  Any other state event, a second result, a result without its
+       announcements, or an event of another path is rejected. *)
+Require Import Verif.Model.Monitors Verif.Proofs.Monitor Verif.Proofs.C04Proof Verif.Model.Json Verif.Model.Request.
+
+Theorem C04_event_monitor_accepts_every_model_trace :
+  forall ep cfg url cup apps e, e_trace e = [] ->
+    accepts step4 (init4 cup) (run_case ep cfg url cup apps e) = true.
+Proof. exact model_accepted_c04. Qed.
+
+Section Examples.
+  Let w0 : wire := {| w_uri := []; w_headers := []; w_body := [];
+                      w_sum := {| ws_source := ScheduledTask; ws_session := None; ws_request := None; ws_apps := [] |} |}.
+  Let d1 : doc := {| d_daystart := None; d_apps := [{| r_id := s2b "a"; r_cohort := cohort_none; r_uc := Some (true, Some (s2b "2.0")) |};
+                                                      {| r_id := s2b "b"; r_cohort := cohort_none; r_uc := Some (true, None) |}] |}.
+  Let sc : sched := {| s_last_update := None; s_last_check := None; s_next := None |}.
+  Let ps : Env.pstate := {| ps_poll := None; ps_fails := 0; ps_proxied := 0 |}.
+  Let q0 := init4 None.
+  Let pre := [AEvent (EvState (CheckingForUpdates ScheduledTask)); AHttp w0 (HResp 200%N None true (BDoc d1)); AEvent (EvServerResponse d1);
+              AInstaller (ICreatePlan params_default None d1 false) (IPlan (Some (s2b "p")));
+              APolicy (QCanStart (s2b "p")) (PUDecision UOk); AEvent (EvState InstallingUpdate);
+              AInstaller (IPerform (s2b "p")) (IPerformed {| pa_progress := []; pa_results := [RInstalled; RFailed] |})].
+  Let tl (r : list app_response) := [AEvent (EvSchedule sc); AEvent (EvProtocol ps); AEvent (EvResult (inr r))].
+  Let good := [{| ar_id := s2b "a"; ar_cohort := cohort_none; ar_uc := None; ar_result := AUpdated |};
+               {| ar_id := s2b "b"; ar_cohort := cohort_none; ar_uc := None; ar_result := AInstallPlanExecutionError |}].
+  Let swapped := [{| ar_id := s2b "a"; ar_cohort := cohort_none; ar_uc := None; ar_result := AInstallPlanExecutionError |};
+                  {| ar_id := s2b "b"; ar_cohort := cohort_none; ar_uc := None; ar_result := AUpdated |}].
+
+  Example C04_monitor_accepts :
+    accepts step4 q0 (pre ++ [AEvent EvInstallerError; AEvent (EvState InstallationError)] ++ tl good ++ [AEvent (EvState Idle)]) = true.
+  Proof. vm_compute. reflexivity. Qed.
+  (* results attributed to the wrong apps; the installer error not announced; no InstallationError; the result before its
+     announcements; WaitingForReboot without a pending reboot; an error state after a usable response *)
+  Example C04_monitor_rejects :
+    accepts step4 q0 (pre ++ [AEvent EvInstallerError; AEvent (EvState InstallationError)] ++ tl swapped) = false
+    /\ accepts step4 q0 (pre ++ [AEvent (EvState InstallationError)]) = false
+    /\ accepts step4 q0 (pre ++ [AEvent EvInstallerError] ++ tl good) = false
+    /\ accepts step4 q0 (pre ++ [AEvent EvInstallerError; AEvent (EvState InstallationError); AEvent (EvResult (inr good))]) = false
+    /\ accepts step4 q0 (pre ++ [AEvent EvInstallerError; AEvent (EvState InstallationError)] ++ tl good ++ [AEvent (EvState WaitingForReboot)]) = false
+    /\ accepts step4 q0 [AEvent (EvState (CheckingForUpdates ScheduledTask)); AHttp w0 (HResp 200%N None true (BDoc d1));
+                         AEvent (EvState ErrorCheckingForUpdate)] = false.
+  Proof. vm_compute. repeat split; reflexivity. Qed.
+End Examples.
+
+Print Assumptions C04_event_monitor_accepts_every_model_trace.
